@@ -10,6 +10,12 @@ use std::time::Instant;
 
 pub const VERIF: &str = "/verif";
 
+/// where run-time output goes (evidence, viol-* replays); /verif unless VERIF_OUT is set
+/// (used for background exploration that must not disturb the committed tree)
+pub fn out_dir() -> String {
+    std::env::var("VERIF_OUT").unwrap_or_else(|_| VERIF.to_string())
+}
+
 #[derive(Clone, Copy, Debug, PartialEq, Eq)]
 pub enum Tier {
     Quick,
@@ -108,7 +114,7 @@ pub fn hash_str(s: &str) -> u64 {
 impl Ctx {
     pub fn new(property: &'static str, tier: Tier, seed: u64) -> Ctx {
         // stale run-time output of earlier failing runs
-        if let Ok(rd) = std::fs::read_dir(format!("{VERIF}/replays/{property}")) {
+        if let Ok(rd) = std::fs::read_dir(format!("{}/replays/{property}", out_dir())) {
             for e in rd.flatten() {
                 if e.file_name().to_string_lossy().starts_with("viol-") {
                     let _ = std::fs::remove_file(e.path());
@@ -178,7 +184,7 @@ impl Ctx {
         }
         // new violation: write replay file (first few only)
         if self.violations.len() < 5 {
-            let dir = format!("{VERIF}/replays/{}", self.property);
+            let dir = format!("{}/replays/{}", out_dir(), self.property);
             let _ = std::fs::create_dir_all(&dir);
             let mut payload = f.replay.clone();
             if let Value::Object(m) = &mut payload {
@@ -240,7 +246,7 @@ impl Ctx {
             "wall_s": wall,
             "violations": self.violations.len(),
         });
-        let dir = format!("{VERIF}/evidence");
+        let dir = format!("{}/evidence", out_dir());
         let _ = std::fs::create_dir_all(&dir);
         std::fs::write(
             format!("{dir}/{}.json", self.property),
